@@ -96,10 +96,18 @@ func (self *Interpreter) callFunc(span errors.Span, val value.Value, args []ast.
 		copy(scopes, closure.Scopes)
 		scopes = append(scopes, params)
 
-		scopesPrev := self.currentModule.scopes
-		self.currentModule.scopes = scopes
+		// A closure which is called from another module (e.g. as a callback) still belongs to its own module.
+		if closure.Module != self.currentModuleName {
+			callerModule := self.currentModuleName
+			self.switchModule(closure.Module)
+			defer self.switchModule(callerModule)
+		}
+
+		closureModule := self.currentModule
+		scopesPrev := closureModule.scopes
+		closureModule.scopes = scopes
 		defer func() {
-			self.currentModule.scopes = scopesPrev
+			closureModule.scopes = scopesPrev
 		}()
 
 		val, i := self.block(closure.Block, false)
